@@ -296,12 +296,58 @@ def near_names(key, rng, n):
     return sorted(out)
 
 
+def first_use_thread_pass(ctx):
+    """The very first conversions of a process, in several threads at once, with language labels whose codes live in the big subtag file:
+    whatever the library loads lazily on first use must not be seen half-loaded by the conversion next door. Runs before anything else in the worker."""
+    import sys
+    import threading
+    codes = ["tlh", "yue", "ceb", "en", "fr", "zzz9", "sw", "ach"]
+    forms = [gen.simple_form([("text", "q1", {f"label::Lang{k} ({c})": "L", f"label::Second{k} (en)": "S"})]).to_sheets() for k, c in enumerate(codes)]
+    res = [None] * len(forms)
+    bar = threading.Barrier(len(forms))
+
+    def work(k):
+        try:
+            bar.wait(timeout=30)
+        except threading.BrokenBarrierError:
+            pass
+        res[k] = drive.convert_sheets(forms[k])
+    old = sys.getswitchinterval()
+    sys.setswitchinterval(1e-5)
+    try:
+        ts = [threading.Thread(target=work, args=(k,)) for k in range(len(forms))]
+        for t_ in ts:
+            t_.start()
+        for t_ in ts:
+            t_.join(120)
+    finally:
+        sys.setswitchinterval(old)
+    for k, (c, o) in enumerate(zip(codes, res)):
+        ctx.ctr("first_use_thread_conversions")
+        if o is None or not o.ok:
+            ctx.viol("first-use-threads:conversion-failed", f"first conversions of the process, 8 threads: code {c!r}: {o.brief() if o is not None else 'no result'}", {"klass": "threads", "sheets_md": common.sheets_to_md(forms[k])})
+            continue
+        got = recognise(o.warnings)["iana"]
+        want = [] if c in VALID_CODES or c == "ach" else [(f"Lang{k} ({c})",)]
+        ctx.case(sig=f"first-use-threads|{c}")
+        if sorted(map(repr, got)) != sorted(map(repr, want)):
+            ctx.viol("first-use-threads:iana", f"first conversions of the process, 8 threads at once: language 'Lang{k} ({c})' gives the code warning {got}, alone it gives {want}",
+                     {"klass": "threads", "sheets_md": common.sheets_to_md(forms[k]), "warnings": o.warnings})
+
+
 def run_shard(ctx):
-    from pyxform.validators.pyxform.iana_subtags.validation import read_tags
+    import os
+    first_use_thread_pass(ctx)
     pl = plan(ctx.tier, ctx.seed)
-    # cross-check the frozen code lists once
-    tags = read_tags("iana_subtags_2_characters.txt") | read_tags("iana_subtags_3_or_more_characters.txt")
-    bad_lists = [c for c in VALID_CODES if c not in tags] + [c for c in INVALID_CODES if c in tags]
+    # cross-check the frozen code lists once against the data files themselves (read directly: the reader function is the library's business)
+    tags = set()
+    for fn in ("iana_subtags_2_characters.txt", "iana_subtags_3_or_more_characters.txt"):
+        try:
+            with open(os.path.join(drive.REPO, "pyxform", "validators", "pyxform", "iana_subtags", fn), encoding="utf-8") as fh:
+                tags |= {ln.strip() for ln in fh}
+        except OSError:
+            ctx.ctr("subtag_file_unreadable")
+    bad_lists = ([c for c in VALID_CODES if c not in tags] + [c for c in INVALID_CODES if c in tags]) if tags else []
     if bad_lists:
         ctx.ctr("frozen_code_lists_disagree_with_repo_files", len(bad_lists))
     # (a) header subsets
@@ -383,8 +429,9 @@ def run_shard(ctx):
         rows = [r for r, _ in form.walk()]
         secs = [r for r in rows if r.is_section()]
         for r in secs:
-            if r.cells.get("appearance") == "field-list" and rng.random() < 0.5:
-                pass
+            # an unlabeled section that carries a hint is still unlabeled
+            if not any(h.split(":")[0] == "label" for h in r.cells) and rng.random() < 0.5:
+                r.cells[rng.choice(["hint", "hint", "guidance_hint"])] = "section hint"
         if rng.random() < 0.3:
             for t in rng.sample(["simserial", "subscriberid", "deviceid"], 2):
                 form.survey.insert(rng.randint(0, len(form.survey)), Row("q", t, f"md_{t}_{i}", {}))
@@ -431,6 +478,9 @@ def run_shard(ctx):
 
 def replay(w):
     def chk(ctx, wit):
+        if wit.get("klass") == "threads":
+            print("thread witness: re-run ./check C20 (the pass needs a fresh process)")
+            return
         sheets = {k: (v[0], v[1]) for k, v in wit["sheets"].items()}
         judge(ctx, sheets, "replay", wit.get("klass", "replay"), args=wit.get("args"), fmt=wit.get("fmt", "dict"))
     return common.replay_with(PROP, w, chk)
